@@ -5,7 +5,9 @@ The real nbmergeapp.main_merge and vcs.git.mergedriver.main(['merge', ...])
 run in-process on generated triples (8 clean / conflicting scripts, symbolic
 leaves, so the merge inside the command executes symbolically), with
 missing-file placeholders (null file for base / local / remote / both, empty
-base file) and 4 strategy configurations.  A single fault -- chosen by
+base file), 7 strategy configurations and, for nbmerge, three output modes
+(--out file; no --out = merged notebook on stdout; --decisions --out = the
+decision list as a JSON file).  A single fault -- chosen by
 E.choice over 9 step boundaries (reading each input, diffing, deciding,
 applying, opening the output, each of the two writes) x 4 kinds (OSError,
 MemoryError, KeyboardInterrupt, kill) -- or none is injected.
@@ -15,6 +17,10 @@ On every feasible path:
       has no conflicted decision;
   S2  no fault: the output (for the driver: the local path) parses as JSON and
       equals, strictly, the library merge written by nbformat (model instance);
+  S2' stdout mode: the text on stdout parses as JSON and equals the library
+      merge, the --out location is untouched; --decisions --out: the file
+      parses as JSON and equals the library's decision list (model instance),
+      and S1 still holds;
   S3  agreed deletion (both sides null): status 0 and the output is removed;
   S4  any fault: the command never reports success (an exception escapes or
       the status is non-zero);
@@ -49,18 +55,20 @@ def main():
             chk.known_finding("F21", "nbmerge of 4.x notebooks without cell ids against the null file: %s (%s)" % (
                 w.violations[0]["label"], "merged declares 4.5 without ids; nbformat adds random ids on write"))
     chk.bounds["merge-command-and-driver"] = (
-        "2 entry points x 8 scripts x placeholders (6 for nbmerge; none / empty base for the driver) x 4 strategy "
-        "configurations without faults; 2 entry points x 8 scripts x (no fault + 9 steps x 4 kinds)%s; ids on/off; "
+        "2 entry points x 8 scripts x placeholders (6 for nbmerge; none / empty base for the driver) x 7 strategy "
+        "configurations x output modes (nbmerge: file / stdout / decisions file) without faults; 2 entry points x 8 scripts x (no fault + 9 steps x 4 kinds)%s; ids on/off; "
         "symbolic execution counts and metadata values" % (" x 3 placeholders" if t == "thorough" else ""))
-    chk.outside += ["--decisions mode and output to stdout", "more than one fault per run", "faults inside C-level calls",
+    chk.outside += ["--decisions without --out (pretty-printed to the log: rendering is C16)", "faults in stdout / decisions-file modes", "more than one fault per run", "faults inside C-level calls",
                     "null-file placeholders combined with id-less notebooks (known finding F21)"]
     chk.stubs += ["nbdime.nbmergeapp.read_notebook -> hands back the generator's notebooks for the three real temp files (real function for placeholders)",
                   "nbdime.nbmergeapp.nbformat.write -> instantiates symbolic leaves with the path's model, then the real nbformat.write",
+                  "nbdime.nbmergeapp.json.dump -> instantiates symbolic leaves with the path's model, then the real json.dump",
+                  "sys.stdout -> io.StringIO for the duration of main_merge",
                   "pathlib.Path.open / file.write on the output path -> fault-injecting wrapper",
                   "diff_notebooks / decide_merge_with_diff / apply_decisions in nbdime.merging.notebooks wrapped with fault points",
                   "nbdime.args.get_defaults_for_argparse -> {} for the driver's parser"] + \
         __import__("harness.fam_nbmerge", fromlist=["STUBS"]).STUBS[:2]
-    chk.require_goals(["clean-exit", "conflict-exit", "agreed-deletion", "driver-wrote-local-path"] +
+    chk.require_goals(["clean-exit", "conflict-exit", "agreed-deletion", "driver-wrote-local-path", "merged-to-stdout", "decisions-to-file"] +
                       ["fault-" + s for s in fam_cli.STEPS] + ["kind-" + k for k in fam_cli.KINDS])
     return chk.finish()
 
